@@ -11,3 +11,18 @@ package pprof
 //@ use casketfile/contracts_verif.go:dispenser_api
 //@ use @verif/specs/stdlib.spec:stdlib
 //@ use @verif/specs/stdlib.spec:casket_api
+
+//@ unit pprof_handler frames=on props=C12 nilchecks=on filter=`pprof\.Handler\)\.ServeHTTP$`
+//@ // C12: a request under /debug/pprof is answered by the profiling mux (the next handler is not called, the handler reports
+//@ // "already written"); every other request is passed on once and the next handler's answer is returned
+//@ use @verif/specs/stdlib.spec:handler_chain
+//@ extern (github.com/tmpim/casket/caskethttp/httpserver.Path).Matches
+//@   pure
+//@ ghost muxCalls int
+//@ extern (*net/http.ServeMux).ServeHTTP
+//@   modifies ghost:muxCalls
+//@   ensures muxCalls == old(muxCalls) + 1
+//@ func (*Handler).ServeHTTP
+//@   requires h != nil && w != nil && r != nil && r.URL != nil && h.Next != nil && h.Mux != nil
+//@   modifies ghost:nextCalls, ghost:nextRet, ghost:muxCalls
+//@   ensures [answers_itself_or_passes_on_once] (nextCalls == old(nextCalls) && muxCalls == old(muxCalls) + 1 && result0 == 0 && result1 == nil) || (nextCalls == old(nextCalls) + 1 && muxCalls == old(muxCalls) && result0 == nextRet)
